@@ -13,6 +13,6 @@ for base,dirs,files in os.walk(ov):
 print("paths="+json.dumps(sorted(paths)))
 PY
 )
-cd /verif/harness
-export CARGO_TARGET_DIR=/verif/harness/target-vh-exec-mut CARGO_NET_OFFLINE=true CARGO_BUILD_JOBS=${CARGO_BUILD_JOBS:-8}
+cd ${WS:-/verif/harness}
+export CARGO_TARGET_DIR=${TARGET:-/verif/harness/target-vh-exec-mut} CARGO_NET_OFFLINE=true CARGO_BUILD_JOBS=${CARGO_BUILD_JOBS:-8}
 cargo build --release --offline -p ${CRATE:-vh-exec} --config "$PATHS" 2>&1 | grep -v "^\s*Compiling\|^warning: path override\|^$\|This is currently allowed\|dependency graph\|removed in the future\|see <https\|override\b" | tail -${TAIL:-15}
